@@ -12,7 +12,8 @@ NODE_KINDS_RAW = ("tag_edit", "len_edit", "content_edit", "zero_len_primitive", 
 INTERIOR = ("inner_len_edit", "node_delete_reframed", "children_truncate_reframed", "zero_len_primitive_reframed",
             "content_truncate_reframed", "control_value_damage", "node_duplicate_reframed", "tag_edit_reframed",
             "content_edit", "inner_len_shrink", "envelope_emptied", "root_tag_edit", "giant_integer")
-PDU_KINDS = ("truncate_stream", "insert_garbage", "random_blob", "pdu_duplicate", "pdu_reorder", "deep_nest", "byz_message", "giant_pending")
+PDU_KINDS = ("truncate_stream", "insert_garbage", "random_blob", "pdu_duplicate", "pdu_reorder", "deep_nest", "byz_message", "giant_pending",
+             "request_flood")
 
 PAGED_OID = b"1.2.840.113556.1.4.319"
 
@@ -103,9 +104,10 @@ def choose(rng, pdu, family):
     elif kind in ("tag_edit", "tag_edit_reframed"):
         i = rng.choice(inner) if kind.endswith("reframed") else rng.randrange(len(order))
         # tag numbers next to the ones the protocol uses matter most (choice n+1 of an n-way CHOICE etc.)
-        f.update(node=i, how=rng.choice(["class", "number", "number", "neighbour", "neighbour", "constructed", "hightag", "hightag_trunc", "zero"]),
+        f.update(node=i, how=rng.choice(["class", "number", "number", "neighbour", "neighbour", "constructed", "hightag", "hightag_trunc", "zero", "hightag1"]),
                  delta=rng.choice([-2, -1, 1, 1, 2, 3]),
-                 val=rng.choice(list(range(0, 13)) * 3 + [19, 23, 24, 25, 30]) if rng.random() < 0.75 else rng.randrange(256))
+                 val=rng.choice(list(range(0, 13)) * 3 + [19, 23, 24, 25, 30]) if rng.random() < 0.75 else rng.randrange(256),
+                 val1=rng.choice([31, 32, 35, 36, 37, 38, 63, 64, 127]) if rng.random() < 0.6 else rng.randrange(128))
     elif kind == "content_edit":
         if not prims:
             return None
@@ -240,6 +242,10 @@ def apply(pdu, f):
             nb = bytes([b0 ^ 0x20])
         elif how == "hightag":
             nb = bytes([b0 | 0x1F, 0x80 | (val & 0x7F), val & 0x7F])
+        elif how == "hightag1":
+            # high-tag-number form with ONE following octet: numbers 31..127, and the non-minimal encodings of 0..30; the edges
+            # of the table of universal types (36 / 37 / 38) and of one-octet numbers (127) are preferred
+            nb = bytes([b0 | 0x1F, int(f.get("val1", 37)) & 0x7F])
         elif how == "hightag_trunc":
             nb = bytes([b0 | 0x1F, 0x80 | (val & 0x7F)])
         else:
